@@ -10,7 +10,7 @@ RULE = ("seeded designs accepted by both strategies; IterateSATGen (random peer 
         "both exhausted in one world; oracle: set equality by level names, both refuse or neither; no reference semantics "
         "involved (documentation gaps stay in); non-trivial = >=2 sequences on either side; distinct = (design skeleton, peer)")
 ASSUMPTIONS = ["fake peers return only genuine models of the clauses they receive"]
-BUDGET = {"quick": 45, "thorough": 900}
+BUDGET = {"quick": 300, "thorough": 900}
 RUNS = {"quick": 2500, "thorough": 100000}
 
 
